@@ -704,11 +704,16 @@ func (o Object) Set(name string, value interface{}) error {
 // Keys gets the keys for the given object.
 //
 // Equivalent to calling Object.keys on the object.
+//
+// Enumerating a bridged Go map whose keys have no spelling as a property name (struct,
+// array or interface keys) throws a TypeError in a script; here it ends the list.
 func (o Object) Keys() []string {
 	var keys []string
-	o.object.enumerate(false, func(name string) bool {
-		keys = append(keys, name)
-		return true
+	_ = catchPanic(func() {
+		o.object.enumerate(false, func(name string) bool {
+			keys = append(keys, name)
+			return true
+		})
 	})
 	return keys
 }
@@ -721,9 +726,11 @@ func (o Object) KeysByParent() [][]string {
 	for o := o.object; o != nil; o = o.prototype {
 		var l []string
 
-		o.enumerate(false, func(name string) bool {
-			l = append(l, name)
-			return true
+		_ = catchPanic(func() { // see Keys
+			o.enumerate(false, func(name string) bool {
+				l = append(l, name)
+				return true
+			})
 		})
 
 		a = append(a, l)
